@@ -2,6 +2,7 @@
 //! C02, C03, C04, C05, C06, C14, C18.
 
 use super::*;
+use std::collections::BTreeMap;
 use crate::gen::{self, GenCfg};
 use crate::prng::Prng;
 use crate::refint::RefItem;
@@ -49,6 +50,11 @@ fn o_inputs_expected(_c: &Case, r: &Ran) -> Option<Finding> {
     )
 }
 fn o_virtual(_c: &Case, r: &Ran) -> Option<Finding> {
+    // "an additional 64-bit output": the signal the row entries point to says so too
+    // (survivor of the operator-mutation sweep: `bits: 64` -> `bits: 65` for declared signals)
+    if let Some(v) = r.real.signals.iter().find(|s| s.kind == "virtual" && s.bits != 64) {
+        return Some(Finding::new("virtual-signal-width", format!("virtual signal {} is listed with {} bits", v.name, v.bits)));
+    }
     diff_items(
         &r.pr,
         &r.rf,
@@ -291,7 +297,7 @@ pub fn maybe_superset(case: &mut Case, r: &mut Prng, per_mille: u32) {
 pub const META_C02: Meta = Meta {
     id: "C02",
     level: "exploration",
-    rule: "Cases from profiles `flow`+`expand` (C/X rows, loops) with both driver variants (overriding write_input or not), random output layouts and, in 35% of cases, a driver error injected at a random call index. The recording driver logs every call before answering. Online protocol oracle after every step: constructor = exactly one output-reading call with all input-capable signals at default and changed=false; each row = exactly one call whose input list is element-wise identical (signal, value, changed) to row.inputs; output-reading call for checked rows, write_input for mid-clock rows (empty outputs); driver-error item = exactly the failing call; End = no call; nothing after End; every logged call accounted for; device-side vectors equal the prescribed ones. 40% of the error-free cases are run again with the caller consuming the iterator through nth(k) / by_ref().skip(k).next() / step_by(s) / count() / last() / collect() / for_each / fold / find (try_fold) / filter+map: the driver's call log must equal the plain run's call for call and every delivered item must be the plain run's item at that position; 25% are run against a driver TYPE that implements only the required method, so that mid-clock rows go through the trait's own default write_input (same items, same number of calls, same inputs, every call output-reading). About 3 cases in 10 000 are a single loop of 2^16 + 1..300 rows (more rows and calls than a 16-bit counter holds), decided directly: row k carries (k & 1, k >> 8 & 1), one output-reading call per row, nothing after the end. Non-trivial = >= 3 rows, call log >= 4, and a C expansion or an injected fault.",
+    rule: "Cases from profiles `flow`+`expand` (C/X rows, loops) with both driver variants (overriding write_input or not), random output layouts and, in 35% of cases, a driver error injected at a random call index. The recording driver logs every call before answering. Online protocol oracle after every step: constructor = exactly one output-reading call with all input-capable signals at default and changed=false; each row = exactly one call whose input list is element-wise identical (signal, value, changed) to row.inputs; output-reading call for checked rows, write_input for mid-clock rows (empty outputs); driver-error item = exactly the failing call; End = no call; nothing after End; every logged call accounted for; device-side vectors equal the prescribed ones. 40% of the error-free cases are run again with the caller consuming the iterator through nth(k) / by_ref().skip(k).next() / step_by(s) / count() / last() / collect() / for_each / fold / find (try_fold) / filter+map: the driver's call log must equal the plain run's call for call and every delivered item must be the plain run's item at that position; 25% are run against a driver TYPE that implements only the required method, so that mid-clock rows go through the trait's own default write_input (same items, same number of calls, same inputs, every call output-reading). About 3 cases in 10 000 are a single loop of 2^16 + 1..300 rows (more rows and calls than a 16-bit counter holds), decided directly: row k carries (k & 1, k >> 8 & 1), one output-reading call per row, nothing after the end. One case in eight builds its iterator through the deprecated alias run_iter (same oracle). One long run in three is a loop of 21 846+ clock rows (more than 2^16 driver calls, two thirds write-only), decided from the text. Non-trivial = >= 3 rows, call log >= 4, and a C expansion or an injected fault.",
     assumptions: &[
         "the recording driver sees every call the crate makes (it is the only TestDriver instance)",
         "reference interpreter decides which rows are checked / mid-clock",
@@ -316,7 +322,58 @@ pub fn profile_expand() -> GenCfg {
 /// A run of 2^16 + a few rows (one loop, one row in it): more rows and driver calls than a 16-bit
 /// counter holds. Decided without the reference: row k carries (k & 1, k >> 8 & 1), one call
 /// per row, all of them output-reading, nothing after the end.
+/// A long run of clock rows: 3 x 21 846+ rows, more than 2^16 driver calls, two thirds of them
+/// write-only. Decided directly from the text.
+fn c02_long_clock_run(case_seed: u64, r: &mut Prng, acc: &mut Acc) {
+    let n = 21846 + r.below(200);
+    let text = format!("A B Q\nloop(i,{n})\nC ((i >> 8) & 1) X\nend loop\n");
+    let sigs = vec![
+        Sig { name: "A".into(), bits: 1, kind: SigKind::In(InVal::V(0)) },
+        Sig { name: "B".into(), bits: 1, kind: SigKind::In(InVal::V(0)) },
+        Sig { name: "Q".into(), bits: 8, kind: SigKind::Out },
+    ];
+    let script = Script { layout: vec![2], values: ValueFn::Small { salt: 1, modulus: 200 }, faults: vec![], override_write: r.chance(1, 2), rebuild_signals: false };
+    NEVER_CALL_VARS.with(|c| c.set(true));
+    let real = run_text(&text, &sigs, &script, &RunOpts { max_steps: 3 * n + 10, probe_after_end: 1, stop_at_error: true, seed: Some(1), continue_on: None });
+    NEVER_CALL_VARS.with(|c| c.set(false));
+    acc.evaluations += 1;
+    acc.event("rows_in_runs_longer_than_2^16", real.steps.len() as u64);
+    let mut f = no_panic(&real);
+    if f.is_none() {
+        let rows = real.steps.iter().take_while(|s| matches!(s.item, RealItem::Row(_))).count();
+        if rows != 3 * n || real.steps.len() != 3 * n + 2 {
+            f = Some(Finding::new("long-run-row-count", format!("loop(i,{n}) with one clock row: {rows} rows, {} items", real.steps.len())));
+        } else if real.calls.len() != 3 * n + 1 {
+            f = Some(Finding::new("long-run-calls", format!("{} rows: {} driver calls", 3 * n, real.calls.len())));
+        } else {
+            for (k, st) in real.steps[..3 * n].iter().enumerate() {
+                let RealItem::Row(row) = &st.item else { unreachable!() };
+                let pass = k / 3;
+                let phase = k % 3;
+                let want = [InVal::V((phase == 1) as i64), InVal::V(((pass >> 8) & 1) as i64)];
+                let got: Vec<InVal> = row.inputs.iter().map(|i| i.1).collect();
+                let call: Vec<InVal> = real.calls[k + 1].inputs.iter().map(|i| i.2).collect();
+                let checked = phase == 2;
+                if got != want || call != want || row.line != 3 || st.calls != (k + 1, k + 2) || real.calls[k + 1].reads != checked || row.outputs.is_empty() == checked {
+                    f = Some(Finding::new(
+                        "long-run-row",
+                        format!("row {k} of {} (pass {pass}, clock phase {phase}): inputs {got:?}, driver received {call:?} through the {} call, {} outputs, line {}, calls {:?}; wanted {want:?}, line 3", 3 * n, if real.calls[k + 1].reads { "output-reading" } else { "write-only" }, row.outputs.len(), row.line, st.calls),
+                    ));
+                    break;
+                }
+            }
+        }
+    }
+    match f {
+        Some(f) => acc.violation(case_seed, "long-clock-run", f, json!({"text": text})),
+        None => acc.held += 1,
+    }
+}
+
 fn c02_long_run(case_seed: u64, r: &mut Prng, acc: &mut Acc) {
+    if r.chance(1, 3) {
+        return c02_long_clock_run(case_seed, r, acc);
+    }
     let n = (1usize << 16) + 1 + r.below(300);
     let text = format!("A B Q\nloop(i,{n})\n(i & 1) ((i >> 8) & 1) X\nend loop\n");
     let sigs = vec![
@@ -358,7 +415,7 @@ fn c02_long_run(case_seed: u64, r: &mut Prng, acc: &mut Acc) {
 
 pub fn c02(case_seed: u64, acc: &mut Acc) {
     let mut r = Prng::new(case_seed);
-    if r.chance(3, 10000) {
+    if !cfg!(miri) && r.chance(3, 10000) {
         acc.cases += 1;
         return c02_long_run(case_seed, &mut r, acc);
     }
@@ -429,7 +486,7 @@ pub fn c02(case_seed: u64, acc: &mut Acc) {
 pub const META_C03: Meta = Meta {
     id: "C03",
     level: "exploration",
-    rule: "Cases from profile `attrib`: 1-6 output-capable signals (incl. bidirectional and 64-bit ones), device layout = random subset in random order, answers drawn per (call,signal) from unique 64-bit numbers / Z / X / boundary values / small numbers. For every checked row the oracle recomputes, from the recorded device answer of that very call, what each `outputs[j]` must be (value reported for the same signal, else X) and checks check(), is_checked() and failing_outputs() against the X/Z rules on the observed triple; the reference interpreter's prescribed outputs are compared as well. Shard 0 additionally runs the exhaustive table of ExpectedValue::check / OutputValue::check over 44x44 boundary values. Non-trivial = layout is a strict subset or a non-identity permutation, >= 2 output-capable signals and >= 2 checked rows.",
+    rule: "Cases from profile `attrib`: 1-6 output-capable signals (incl. bidirectional and 64-bit ones), device layout = random subset in random order, answers drawn per (call,signal) from unique 64-bit numbers / Z / X / boundary values / small numbers. For every checked row the oracle recomputes, from the recorded device answer of that very call, what each `outputs[j]` must be (value reported for the same signal, else X) and checks check(), is_checked() and failing_outputs() against the X/Z rules on the observed triple; the reference interpreter's prescribed outputs are compared as well. Shard 0 additionally runs the exhaustive table of ExpectedValue::check / OutputValue::check over 44x44 boundary values. 1.5% of the cases are a device with 9-70 outputs reported in a shuffled, non-alphabetical order, a third of them without a header column. Non-trivial = layout is a strict subset or a non-identity permutation, >= 2 output-capable signals and >= 2 checked rows.",
     assumptions: &["unique per-(call,signal) device values make stale or cross-wired values evident"],
     quick_cases: 150000,
     thorough_cases: 2000000,
@@ -460,7 +517,45 @@ pub fn profile_attrib(r: &mut Prng) -> GenCfg {
 pub fn c03(case_seed: u64, acc: &mut Acc) {
     let mut r = Prng::new(case_seed);
     let cfg = profile_attrib(&mut r);
-    let case = gen::generate(&mut r, &cfg);
+    let mut case = gen::generate(&mut r, &cfg);
+    if r.chance(15, 1000) {
+        // a device with many outputs (9-70, past 8 / 16 / 32 / 64), reported in an order that is
+        // neither the signal list's nor alphabetical, some of them without a header column
+        // (after seeded change Y-C03-agent22-2: a lookup that switches to a sorted table above 16)
+        let n = *r.pick(&[9usize, 15, 16, 17, 18, 20, 31, 32, 33, 40, 64, 65, 70]);
+        let pool = ["Q", "b", "Zq", "a_", "OUT", "M", "y", "R", "cnt", "W"];
+        let mut sigs = vec![Sig { name: "A".into(), bits: 4, kind: SigKind::In(InVal::V(0)) }];
+        for i in 0..n {
+            sigs.push(Sig { name: format!("{}{}", pool[(i * 7 + 3) % pool.len()], (i * 13 + 5) % 97), bits: 1 + r.below(16), kind: SigKind::Out });
+        }
+        r.shuffle(&mut sigs);
+        let mut header: Vec<String> = sigs.iter().filter(|s| s.is_input() || r.chance(2, 3)).map(|s| s.name.clone()).collect();
+        r.shuffle(&mut header);
+        if !header.iter().any(|h| h == "A") {
+            header.push("A".into());
+        }
+        let mut layout: Vec<usize> = (0..sigs.len()).filter(|&i| sigs[i].is_output()).collect();
+        r.shuffle(&mut layout);
+        if r.chance(1, 3) {
+            layout.truncate(layout.len() - r.below(3));
+        }
+        let mut items = vec![];
+        for id in 1..=3usize {
+            let es: Vec<Entry> = header
+                .iter()
+                .map(|h| if h == "A" { Entry::Lit(id as i64, Radix::Dec) } else if r.chance(1, 4) { Entry::X(false) } else { Entry::Lit(r.range(0, 3), Radix::Dec) })
+                .collect();
+            items.push(Item::Row(id, es));
+        }
+        case = Case {
+            program: Program { header, items },
+            signals: sigs,
+            script: Script { layout, values: ValueFn::Small { salt: r.next_u64(), modulus: 4 }, faults: vec![], override_write: false, rebuild_signals: r.chance(1, 4) },
+            layout_opts: crate::pp::Layout::plain(),
+            rng_seed: 1,
+        };
+        acc.tag("device_with_9_to_70_outputs_in_shuffled_order");
+    }
     run_oracles(
         &case,
         case_seed,
@@ -625,7 +720,7 @@ pub fn c03_exhaustive(acc: &mut Acc) -> Value {
 pub const META_C04: Meta = Meta {
     id: "C04",
     level: "exploration",
-    rule: "Cases from profile `feedback`: programs reading device outputs in row entries, let, loop bounds, while conditions and ite branches (45% of identifier leaves), same names used as variables and outputs, C rows between reads, feedback devices (DONE after d calls), device answers unique per (call,signal) with Z/X scheduled at ~4%. Variant `missing` removes one read output from the device layout. Oracle: device-side input vectors, row inputs and un-truncated expected values must equal those prescribed by the reference, which resolves an identifier as variable-in-scope first, else the answer of the latest output-reading call (constructor call initially, never a mid-clock write); a read of Z/X must make exactly that item a runtime error naming the signal; a missing read output must make try_iter fail after exactly one device call. Non-trivial = >= 3 rows and >= 1 output read whose value differs between the two most recent output-reading calls (so a stale or early read would be visible).",
+    rule: "Cases from profile `feedback`: programs reading device outputs in row entries, let, loop bounds, while conditions and ite branches (45% of identifier leaves), same names used as variables and outputs, C rows between reads, feedback devices (DONE after d calls), device answers unique per (call,signal) with Z/X scheduled at ~4%. Variant `missing` removes one read output from the device layout. Oracle: device-side input vectors, row inputs and un-truncated expected values must equal those prescribed by the reference, which resolves an identifier as variable-in-scope first, else the answer of the latest output-reading call (constructor call initially, never a mid-clock write); a read of Z/X must make exactly that item a runtime error naming the signal; a missing read output must make try_iter fail after exactly one device call. 5% of the cases carry the same statement text in two scopes: a row / repeat row / let reading Q inside loop(Q,k) and, byte for byte the same, outside it where Q is a device output; expressions of the shape e OP e and cancelling pairs (-a * -b, (a+b)-b, a*0) occur in 3-4% of the inner nodes. A fifth of the whiles count in a variable and read an output on every check (while((w < k) & (Q | 1)) with a checked row in the body); after the error item of a failing while condition the caller asks once more and must not get a row. Non-trivial = >= 3 rows and >= 1 output read whose value differs between the two most recent output-reading calls (so a stale or early read would be visible).",
     assumptions: &["reference interpreter; unique answers make one-call-early / one-call-late reads visible"],
     quick_cases: 150000,
     thorough_cases: 2000000,
@@ -711,7 +806,7 @@ pub fn c04(case_seed: u64, acc: &mut Acc) {
 pub const META_C05: Meta = Meta {
     id: "C05",
     level: "exploration",
-    rule: "Cases from profile `expand`: rows with 0-5 X and 0-3 C entries at any input positions (1-bit, multi-bit, bidirectional inputs), mixed with literals, expressions and bits(), at loop depth 0-3, permuted/partial headers. Oracle: the observed row sequence (inputs, expected, line, checked/mid-clock, call kind) equals the prescribed expansion: for a in 0..2^k (bit j of a drives the j-th X column from the left, so the leftmost varies fastest, 0 first), per assignment one checked row or the clock triple (C:=0 unchecked, C:=1 unchecked, C:=0 checked); expected X/Z never expanded. Shard 0 enumerates all rows of width <= 4 over {0,1,X,C,Z} on three configurations. Special shapes, 1-2% of the cases each: rows with 8-10 X (run to the end), rows with 11-130 X (counts just past 31 / 32 / 63 / 64 / 128; the crate expands lazily, the first 40-100 rows are compared), headers of 65-140 columns, twin rows on different lines with identical entries and >= 4 X. Non-trivial = a source row with >= 2 X, or >= 2 C, or X and C together, or an expansion inside a loop.",
+    rule: "Cases from profile `expand`: rows with 0-5 X and 0-3 C entries at any input positions (1-bit, multi-bit, bidirectional inputs), mixed with literals, expressions and bits(), at loop depth 0-3, permuted/partial headers. Oracle: the observed row sequence (inputs, expected, line, checked/mid-clock, call kind) equals the prescribed expansion: for a in 0..2^k (bit j of a drives the j-th X column from the left, so the leftmost varies fastest, 0 first), per assignment one checked row or the clock triple (C:=0 unchecked, C:=1 unchecked, C:=0 checked); expected X/Z never expanded. Shard 0 enumerates all rows of width <= 4 over {0,1,X,C,Z} on three configurations. Special shapes, 1-2% of the cases each: rows with 8-10 X (run to the end), rows with 11-130 X (counts just past 31 / 32 / 63 / 64 / 128; the crate expands lazily, the first 40-100 rows are compared), headers of 65-140 columns, twin rows on different lines with identical entries and >= 4 X. A further 1.2%: one row with 9-40 clock columns (past 8 / 16 / 32), some on multi-bit inputs, 0-2 X beside them. Non-trivial = a source row with >= 2 X, or >= 2 C, or X and C together, or an expansion inside a loop.",
     assumptions: &["reference interpreter"],
     quick_cases: 120000,
     thorough_cases: 1500000,
@@ -760,6 +855,49 @@ pub fn c05(case_seed: u64, acc: &mut Acc) {
         };
         acc.tag("wide_row_8_to_10_X");
         c05_case_opts(&case, case_seed, "wide", acc, Some(crate::refint::RefOpts { max_rows: 3300, max_steps: 8000, ..Default::default() }));
+        return;
+    }
+    if r.chance(12, 1000) {
+        // many clock columns: 9-40 C entries in one row (past 8 / 16 / 32 - more than fits a small
+        // fixed-size buffer of column indices), some of them on multi-bit inputs, 0-2 X beside
+        // them (after seeded change V-C05-agent19-6)
+        let n = 9 + r.below(34);
+        let n_c = (9 + r.below(n - 8)).min(n);
+        let mut sigs: Vec<Sig> = (0..n).map(|i| Sig { name: format!("K{i}"), bits: if r.chance(1, 5) { 2 + r.below(7) } else { 1 }, kind: SigKind::In(InVal::V((i % 2) as i64)) }).collect();
+        sigs.insert(r.below(n), Sig { name: "Q".into(), bits: 8, kind: SigKind::Out });
+        let header: Vec<String> = sigs.iter().map(|s| s.name.clone()).collect();
+        let mut kinds: Vec<u8> = (0..n).map(|i| if i < n_c { 2 } else { 0 }).collect();
+        for k in kinds.iter_mut().skip(n_c).take(r.below(3)) {
+            *k = 1;
+        }
+        r.shuffle(&mut kinds);
+        let mut ki = 0;
+        let entries: Vec<Entry> = sigs
+            .iter()
+            .map(|s| {
+                if s.is_input() {
+                    let k = kinds[ki];
+                    ki += 1;
+                    match k {
+                        1 if s.bits == 1 => Entry::X(false),
+                        2 => Entry::C(r.chance(1, 4)),
+                        _ => Entry::Lit(1, Radix::Dec),
+                    }
+                } else {
+                    Entry::Lit(5, Radix::Dec)
+                }
+            })
+            .collect();
+        let plain: Vec<Entry> = entries.iter().map(|e| if matches!(e, Entry::X(_) | Entry::C(_)) { Entry::Lit(0, Radix::Dec) } else { e.clone() }).collect();
+        let case = Case {
+            program: Program { header, items: vec![Item::Row(1, entries.clone()), Item::Row(2, plain), Item::Row(3, entries)] },
+            signals: sigs,
+            script: Script { layout: vec![], values: ValueFn::Unique { salt: 1, narrow: true }, faults: vec![], override_write: r.chance(1, 2), rebuild_signals: false },
+            layout_opts: crate::pp::Layout::plain(),
+            rng_seed: 1,
+        };
+        acc.tag("row_with_9_to_40_clock_columns");
+        c05_case_opts(&case, case_seed, "many-clocks", acc, None);
         return;
     }
     if r.chance(15, 1000) {
@@ -1111,7 +1249,7 @@ pub fn c06(case_seed: u64, acc: &mut Acc) {
 pub const META_C14: Meta = Meta {
     id: "C14",
     level: "exploration",
-    rule: "Cases from profile `virtual`: 1-4 `declare` statements placed before, between, after rows and inside loop/while bodies, expressions over 1-3 device outputs (incl. bidirectional), program variables and loop counters deliberately named like the outputs the declarations read, C rows before checked rows, Z/X answers at ~5% of (call,signal) pairs, header with or without the virtual columns. Oracle: in every checked row the entry of each virtual signal (located by name) carries the declared expression evaluated by the reference over the answers of that very call with no variable visible, expected = column of that name else X; a Z/X operand makes exactly that item a runtime error (not a panic, not a value); vars() after every row still equals the program's variables. 15% of the cases have no declaration of their own, only virtual signals that came with the signal list (at any position in it, also before device outputs); the forced shadowing variable is named after an operand of either kind; 2% put the declarations behind 62-129 outputs (positions 63, 64, 65, 128 ... of the output vector) with a let and a loop counter shadowing their operands. Non-trivial = >= 1 virtual signal evaluated on >= 2 checked rows with differing operands and >= 1 variable in scope with the name of an operand.",
+    rule: "Cases from profile `virtual`: 1-4 `declare` statements placed before, between, after rows and inside loop/while bodies, expressions over 1-3 device outputs (incl. bidirectional), program variables and loop counters deliberately named like the outputs the declarations read, C rows before checked rows, Z/X answers at ~5% of (call,signal) pairs, header with or without the virtual columns. Oracle: in every checked row the entry of each virtual signal (located by name) carries the declared expression evaluated by the reference over the answers of that very call with no variable visible, expected = column of that name else X; a Z/X operand makes exactly that item a runtime error (not a panic, not a value); vars() after every row still equals the program's variables. 15% of the cases have no declaration of their own, only virtual signals that came with the signal list (at any position in it, also before device outputs); the forced shadowing variable is named after an operand of either kind; 2% put the declarations behind 62-129 outputs (positions 63, 64, 65, 128 ... of the output vector) with a let and a loop counter shadowing their operands. Every virtual signal listed in TestCase.signals must be 64 bits wide. Declaration expressions contain ite(c,a,b) and unary operators as well as binary operators, names and literals. Non-trivial = >= 1 virtual signal evaluated on >= 2 checked rows with differing operands and >= 1 variable in scope with the name of an operand.",
     assumptions: &["reference interpreter; unique answers distinguish this row's outputs from the previous row's"],
     quick_cases: 150000,
     thorough_cases: 2000000,
@@ -1237,15 +1375,87 @@ pub fn c14(case_seed: u64, acc: &mut Acc) {
 pub const META_C18: Meta = Meta {
     id: "C18",
     level: "exploration",
-    rule: "Cases from profile `flow` with deliberately overlapping name pools (n, i, output names, virtual-signal names), shadow depth up to 5, plus the `virtual` profile (the variable swap around virtual-signal evaluation must be undone). After every yielded row vars() is sampled and must equal the flattening (innermost binding wins) of the reference interpreter's frame stack at the moment the row's source statement was evaluated - so loop variables of ended loops are absent, shadowed outer values are back, and no output / virtual signal name appears unless a variable of that name is in scope. A second, text-only oracle runs on every case: the keys of vars() at a row are a subset of the names that can be in scope at that place of the text, and at rows outside every loop/while the constant top-level bindings are back with their own value; it also covers the 4% of cases in which a loop body rebinds the loop's own counter (to MAX, MAX-1 or 2^40), where the reference abstains. Non-trivial = a row yielded at frame depth >= 2 while some name is bound in two frames, or the first row after a loop has ended.",
+    rule: "Cases from profile `flow` with deliberately overlapping name pools (n, i, output names, virtual-signal names), shadow depth up to 5, plus the `virtual` profile (the variable swap around virtual-signal evaluation must be undone). After every yielded row vars() is sampled and must equal the flattening (innermost binding wins) of the reference interpreter's frame stack at the moment the row's source statement was evaluated - so loop variables of ended loops are absent, shadowed outer values are back, and no output / virtual signal name appears unless a variable of that name is in scope. A second, text-only oracle runs on every case: the keys of vars() at a row are a subset of the names that can be in scope at that place of the text, and at rows outside every loop/while the constant top-level bindings are back with their own value; it also covers the 4% of cases in which a loop body rebinds the loop's own counter (to MAX, MAX-1 or 2^40), where the reference abstains. 0.08% of the cases are two rows with a row-less loop of about 2^16 / 2^17 iterations between them (+-3 binding changes around the multiple of 65536), vars() asked at both, decided from the text alone. Non-trivial = a row yielded at frame depth >= 2 while some name is bound in two frames, or the first row after a loop has ended.",
     assumptions: &["reference interpreter's frame stack"],
     quick_cases: 150000,
     thorough_cases: 3000000,
     floor: 5000,
 };
 
+/// Two vars() calls with about 2^16 (2^17) binding changes between them: a row-less loop between
+/// two rows. A change counter or generation stamp kept in 16 bits comes round to where it was
+/// (after seeded change V-C18-agent19-8). The oracle needs no reference: the text says what is
+/// in scope at both rows.
+fn c18_many_changes(case_seed: u64, r: &mut Prng, acc: &mut Acc) {
+    let mult = 1 + r.below(2);
+    let with_let_body = r.chance(1, 2);
+    let d = r.below(7) as i64 - 3;
+    // binding changes between the two vars() calls: [let a = 2] + n counter values + n body lets + the frame popped
+    let rebind_a = r.chance(3, 4);
+    let total = (mult as i64) * 65536 + d;
+    let fixed = 1 + rebind_a as i64;
+    let n = ((total - fixed) / if with_let_body { 2 } else { 1 }).max(1) as usize;
+    let body = if with_let_body { "let t = i;\n" } else { "" };
+    let a_before = rebind_a && r.chance(1, 2);
+    // one time in three the changes come from a while that counts in a top-level variable
+    // (no frame pushed or popped: the bindings are rebound in place)
+    let as_while = r.chance(1, 3);
+    let text = if as_while {
+        let m = (total - fixed - 1).max(1);
+        format!(
+            "A\nlet a = 1;\n(a)\n{}let k = 0;\nwhile(k < {m})\nlet k = k + 1;\nend while\n{}(a + k - k)\n",
+            if a_before { "let a = 2;\n" } else { "" },
+            if rebind_a && !a_before { "let a = 2;\n" } else { "" }
+        )
+    } else {
+        format!(
+            "A\nlet a = 1;\n(a)\n{}loop(i,{n})\n{body}end loop\n{}(a)\n",
+            if a_before { "let a = 2;\n" } else { "" },
+            if rebind_a && !a_before { "let a = 2;\n" } else { "" }
+        )
+    };
+    let sigs = vec![Sig { name: "A".into(), bits: 8, kind: SigKind::In(InVal::V(0)) }];
+    let script = Script { layout: vec![], values: ValueFn::Small { salt: 1, modulus: 200 }, faults: vec![], override_write: false, rebuild_signals: false };
+    let real = run_text(&text, &sigs, &script, &RunOpts { max_steps: 10, probe_after_end: 1, stop_at_error: true, seed: Some(1), continue_on: None });
+    acc.evaluations += 1;
+    acc.event("binding_changes_between_two_vars_calls", (n * if with_let_body { 2 } else { 1 }) as u64 + fixed as u64);
+    let a2 = if rebind_a { 2 } else { 1 };
+    let k_end = (total - fixed - 1).max(1);
+    let want: Vec<(i64, Vec<(&str, i64)>)> = vec![(1, vec![("a", 1)]), (a2, if as_while { vec![("a", a2), ("k", k_end)] } else { vec![("a", a2)] })];
+    let mut f = first_some(vec![no_panic(&real), accepted(&real)]);
+    if f.is_none() {
+        let rows: Vec<(Option<i64>, Option<BTreeMap<String, i64>>)> = real
+            .steps
+            .iter()
+            .filter_map(|st| if let RealItem::Row(row) = &st.item { Some((row.inputs.first().and_then(|i| if let InVal::V(v) = i.1 { Some(v) } else { None }), st.vars.clone())) } else { None })
+            .collect();
+        if rows.len() != 2 {
+            f = Some(Finding::new("vars-long-run-rows", format!("{} rows instead of 2", rows.len())));
+        } else {
+            for (k, (w, got)) in want.iter().zip(&rows).enumerate() {
+                let wv: BTreeMap<String, i64> = w.1.iter().map(|(n, v)| (n.to_string(), *v)).collect();
+                if got.0 != Some(w.0) || got.1.as_ref() != Some(&wv) {
+                    f = Some(Finding::new("vars-stale-after-many-changes", format!("row {k}: A = {:?}, vars() = {:?}; in scope there: {wv:?}", got.0, got.1)));
+                    break;
+                }
+            }
+        }
+    }
+    match f {
+        Some(f) => acc.violation(case_seed, "many-changes", f, json!({"text": text})),
+        None => {
+            acc.held += 1;
+            acc.tag("two_vars_calls_2^16_binding_changes_apart");
+        }
+    }
+}
+
 pub fn c18(case_seed: u64, acc: &mut Acc) {
     let mut r = Prng::new(case_seed);
+    if !cfg!(miri) && r.chance(8, 10000) {
+        acc.cases += 1;
+        return c18_many_changes(case_seed, &mut r, acc);
+    }
     let cfg = if r.chance(300, 1000) {
         profile_virtual(&mut r)
     } else {
